@@ -739,9 +739,10 @@ class XPathToken(Token[ta.XPathTokenType]):
                     _item += timezone.offset
                 elif not isinstance(item, Date):
                     _item += timezone.offset - _tzinfo.offset
-                elif timezone.offset < _tzinfo.offset:
-                    _item -= timezone.offset - _tzinfo.offset
-                    _item -= DayTimeDuration.fromstring('P1D')
+                else:
+                    # the day that contains, in the new timezone, the first instant of the date
+                    seconds = int((timezone.offset - _tzinfo.offset).total_seconds())
+                    _item += DayTimeDuration(seconds=seconds)
         except OverflowError as err:
             if isinstance(context, XPathSchemaContext):
                 return _item
